@@ -750,6 +750,13 @@ Section KKProofs.
     intros e best part ys _ _ _. discriminate.
   Qed.
 
+  Lemma fold_part_stays mode k f : forall cs s, ckk_part s <> None ->
+    ckk_part (fold_left (fun s c => ckk_explore nameof true f mode k c s) cs s) <> None.
+  Proof.
+    induction cs as [|c1 cs IHcs]; intros s Hs; cbn [fold_left]; [exact Hs|].
+    apply IHcs. apply explore_part_stays. exact Hs.
+  Qed.
+
   Lemma explore_total mode k : forall fuel h st,
     (1 <= length h)%nat -> (length h <= S fuel)%nat ->
     ckk_best st = None -> ckk_stop st = false ->
@@ -765,13 +772,481 @@ Section KKProofs.
       + pose proof (children_nonempty rest (snd e1) (snd e2)) as N.
         pose proof (children_in rest (snd e1) (snd e2)) as HIn.
         destruct (rev (sort_asc topdiff (children rest (snd e1) (snd e2)))) as [|c0 cs]; [congruence|].
-        cbn [fold_left].
-        assert (H0 : ckk_part (ckk_explore nameof true f mode k c0 (tick st)) <> None).
-        { destruct (HIn c0 (or_introl eq_refl)) as (comb & _ & ->).
-          apply IH; try rewrite heap_push_length; try lia; [exact Hb|reflexivity]. }
-        generalize dependent (ckk_explore nameof true f mode k c0 (tick st)).
-        clear HIn. induction cs as [|c1 cs IHcs]; intros s Hs'; cbn [fold_left]; [exact Hs'|].
-        apply IHcs. apply explore_part_stays. exact Hs'.
+        cbn [fold_left]. apply fold_part_stays.
+        destruct (HIn c0 (or_introl eq_refl)) as (comb & _ & ->).
+        apply IH; try rewrite heap_push_length; try lia; [exact Hb|reflexivity].
+  Qed.
+
+  (** ---- per-entry facts that hold for everything pushed through heap_push ---- *)
+  Definition key_ok (e : @hentry A) : Prop := fst e = - bins_diff (snd e).
+  Definition sorted_ok (e : @hentry A) : Prop := StronglySorted Z.le (sums (snd e)).
+
+  Lemma initial_fold_Forall (Q : @hentry A -> Prop) keep k :
+    (forall b, Q (- bins_diff (sort_bins b), sort_bins b)) ->
+    forall l (h : @heap A), Forall Q h ->
+    Forall Q (fold_left (fun h x => heap_push h (singleton_bins valueof keep k x)) l h).
+  Proof.
+    intros HQ. induction l as [|x t IH]; intros h Hh; cbn [fold_left]; [exact Hh|].
+    apply IH. apply heap_push_Forall; [exact Hh|apply HQ].
+  Qed.
+
+  Lemma initial_heap_Forall (Q : @hentry A -> Prop) keep k items :
+    (forall b, Q (- bins_diff (sort_bins b), sort_bins b)) ->
+    Forall Q (initial_heap valueof keep k items).
+  Proof. intros HQ. unfold initial_heap. apply initial_fold_Forall; [exact HQ|constructor]. Qed.
+
+  Lemma child_Forall (Q : @hentry A -> Prop) e1 e2 rest c :
+    (forall b, Q (- bins_diff (sort_bins b), sort_bins b)) ->
+    Forall Q (e1 :: e2 :: rest) -> Forall Q (heap_push rest c).
+  Proof.
+    intros HQ HF. apply heap_push_Forall; [exact (Forall_inv_tail (Forall_inv_tail HF))|apply HQ].
+  Qed.
+
+  Lemma pushed_key_ok (b : bins A) : key_ok (- bins_diff (sort_bins b), sort_bins b).
+  Proof. reflexivity. Qed.
+
+  Lemma pushed_sorted_ok (b : bins A) : sorted_ok (- bins_diff (sort_bins b), sort_bins b).
+  Proof. apply sort_bins_sorted. Qed.
+
+  (** ---- facts about a whole run ---- *)
+  Definition run_mode (init : option Z) : bool := match init with None => true | Some _ => false end.
+
+  Lemma run_valid mode init k items : (1 <= k)%nat ->
+    Forall (is_partition valueof k items) (ckk_yields (ckk_run valueof nameof true mode init k items)).
+  Proof.
+    intros Hk. unfold ckk_run.
+    apply (explore_preserves mode k (heap_inv k items)
+             (fun _ _ ys => Forall (is_partition valueof k items) ys)).
+    - intros e1 e2 rest c Hh Hc. eapply ckk_child_inv; eassumption.
+    - intros e best part ys Hh _ Hys. constructor; [apply single_heap_partition; exact Hh|exact Hys].
+    - apply initial_heap_inv. exact Hk.
+    - constructor.
+  Qed.
+
+  Lemma run_hd mode init k items :
+    let st := ckk_run valueof nameof true mode init k items in
+    ckk_part st = hd_error (ckk_yields st).
+  Proof.
+    unfold ckk_run.
+    apply (explore_preserves mode k (fun _ => True) (fun _ part ys => part = hd_error ys)); auto.
+    reflexivity.
+  Qed.
+
+  Lemma run_sorted mode init k items :
+    Forall (fun b => StronglySorted Z.le (sums b))
+           (ckk_yields (ckk_run valueof nameof true mode init k items)).
+  Proof.
+    unfold ckk_run.
+    apply (explore_preserves mode k (Forall sorted_ok)
+             (fun _ _ ys => Forall (fun b => StronglySorted Z.le (sums b)) ys)).
+    - intros e1 e2 rest c Hh _. eapply child_Forall; [exact pushed_sorted_ok|exact Hh].
+    - intros e best part ys Hh _ Hys. constructor; [exact (Forall_inv Hh)|exact Hys].
+    - apply initial_heap_Forall. exact pushed_sorted_ok.
+    - constructor.
+  Qed.
+
+  Definition chain_ok (best : option Z) (ys : list (bins A)) : Prop :=
+    best = option_map (fun b => - bins_diff b) (hd_error ys) /\
+    StronglySorted (fun a b => bins_diff a < bins_diff b) ys.
+
+  Lemma run_chain k items :
+    let st := ckk_run valueof nameof true true None k items in
+    chain_ok (ckk_best st) (ckk_yields st).
+  Proof.
+    unfold ckk_run.
+    apply (explore_preserves true k (Forall key_ok) (fun best _ ys => chain_ok best ys)).
+    - intros e1 e2 rest c Hh _. eapply child_Forall; [exact pushed_key_ok|exact Hh].
+    - intros e best part ys Hh G [Hb Hs]. pose proof (Forall_inv Hh) as Hk. unfold key_ok in Hk.
+      split.
+      + cbn [hd_error option_map]. rewrite Hk. reflexivity.
+      + constructor; [exact Hs|].
+        destruct ys as [|y t]; [constructor|].
+        cbn [hd_error option_map] in Hb. subst best. cbn [gt_best] in G.
+        inversion Hs as [|y' t' Hs' Hy]; subst y' t'.
+        constructor; [lia|]. eapply Forall_impl; [|exact Hy]. cbv beta. intros z Hz. lia.
+    - apply initial_heap_Forall. exact pushed_key_ok.
+    - split; [reflexivity|constructor].
+  Qed.
+
+  Lemma sort_bins_partition k its (b : bins A) :
+    is_partition valueof k its b -> is_partition valueof k its (sort_bins b).
+  Proof.
+    intros (HP & HL & HW). split; [|split].
+    - rewrite sort_bins_contents. exact HP.
+    - rewrite sort_bins_length. exact HL.
+    - apply sort_bins_wf. exact HW.
+  Qed.
+
+  Lemma run_total k items : items <> [] ->
+    ckk_part (ckk_run valueof nameof true true None k items) <> None.
+  Proof.
+    intros Hne. unfold ckk_run. apply explore_total; try reflexivity.
+    - rewrite initial_heap_length. destruct items; [congruence|cbn [length]; lia].
+    - rewrite initial_heap_length. lia.
+  Qed.
+
+  (** ---- 5. ckk returns a partition (C01) ---- *)
+  Theorem ckk_partition : forall k items, (1 <= k)%nat -> items <> [] ->
+    exists b, ckk valueof nameof true k items = Ok b /\ is_partition valueof k items b.
+  Proof.
+    intros k items Hk Hne.
+    pose proof (run_valid true None k items Hk) as HV.
+    pose proof (run_hd true None k items) as HH. cbv zeta in HH.
+    pose proof (run_total k items Hne) as HT.
+    unfold ckk.
+    destruct (ckk_part (ckk_run valueof nameof true true None k items)) as [b|]; [|congruence].
+    exists (sort_bins b). split; [reflexivity|]. apply sort_bins_partition.
+    destruct (ckk_yields (ckk_run valueof nameof true true None k items)) as [|y ys];
+      cbn [hd_error] in HH; [discriminate|].
+    injection HH as ->. exact (Forall_inv HV).
+  Qed.
+
+  (** ---- 6. the generator (C11) ---- *)
+  Lemma ckk_generator_valid_any : forall k items init b, (1 <= k)%nat ->
+    In b (ckk_generator valueof nameof true k items init) -> is_partition valueof k items b.
+  Proof.
+    intros k items init b Hk Hb. unfold ckk_generator in Hb. apply in_rev in Hb.
+    pose proof (run_valid (run_mode init) init k items Hk) as HV.
+    rewrite Forall_forall in HV. apply HV. exact Hb.
+  Qed.
+
+  Theorem ckk_generator_valid : forall k items b, (1 <= k)%nat -> items <> [] ->
+    In b (ckk_generator valueof nameof true k items None) -> is_partition valueof k items b.
+  Proof. intros k items b Hk _ Hb. eapply ckk_generator_valid_any; eassumption. Qed.
+
+  (** every yielded bins-array is sorted by sum, so [bins_diff] is its max-min difference *)
+  Lemma bins_diff_sorted (b : bins A) : StronglySorted Z.le (sums b) ->
+    bins_diff b = zmax (sums b) - zmin (sums b).
+  Proof.
+    unfold bins_diff. generalize (sums b) as l. intros l Hs.
+    destruct l as [|x t]; [reflexivity|].
+    assert (Hmin : zmin (x :: t) = x).
+    { pose proof (zmin_le (x :: t)) as H1. pose proof (zmin_in (x :: t)) as H2.
+      inversion Hs as [|x' t' _ Hx]; subst x' t'. rewrite Forall_forall in H1, Hx.
+      destruct H2 as [H2|H2]; [discriminate|symmetry; exact H2|].
+      pose proof (Hx _ H2). pose proof (H1 x (or_introl eq_refl)). lia. }
+    assert (Hmax : zmax (x :: t) = last (x :: t) 0).
+    { pose proof (zmax_ge (x :: t)) as H1. pose proof (zmax_in (x :: t)) as H2.
+      assert (HL : In (last (x :: t) 0) (x :: t)).
+      { destruct (exists_last (l := x :: t)) as (l' & a & E); [discriminate|].
+        rewrite E, last_last. apply in_or_app. right. left. reflexivity. }
+      rewrite Forall_forall in H1. pose proof (H1 _ HL) as H3.
+      assert (HG : forall l, StronglySorted Z.le l -> forall y, In y l -> y <= last l 0).
+      { induction 1 as [|z r Hr IHr Hz]; intros y Hy; [destruct Hy|].
+        destruct r as [|z' r'].
+        - destruct Hy as [<-|[]]. cbn [last]. lia.
+        - change (last (z :: z' :: r') 0) with (last (z' :: r') 0).
+          destruct Hy as [<-|Hy]; [|apply IHr; exact Hy].
+          rewrite Forall_forall in Hz. pose proof (Hz z' (or_introl eq_refl)).
+          pose proof (IHr z' (or_introl eq_refl)). lia. }
+      pose proof (HG _ Hs _ (H2 ltac:(discriminate))). lia. }
+    rewrite Hmin, Hmax. reflexivity.
+  Qed.
+
+  Theorem ckk_generator_sorted : forall k items init b,
+    In b (ckk_generator valueof nameof true k items init) ->
+    StronglySorted Z.le (sums b) /\ bins_diff b = zmax (sums b) - zmin (sums b).
+  Proof.
+    intros k items init b Hb. unfold ckk_generator in Hb. apply in_rev in Hb.
+    pose proof (run_sorted (run_mode init) init k items) as HS.
+    rewrite Forall_forall in HS. pose proof (HS _ Hb) as H. split; [exact H|].
+    apply bins_diff_sorted. exact H.
+  Qed.
+
+  (** the yielded differences strictly decrease, and ckk returns the last yield (sorted) *)
+  Theorem ckk_generator_decreasing : forall k items,
+    StronglySorted (fun a b => bins_diff b < bins_diff a)
+                   (ckk_generator valueof nameof true k items None) /\
+    ckk valueof nameof true k items =
+      match last_opt (ckk_generator valueof nameof true k items None) with
+      | Some b_last => Ok (sort_bins b_last)
+      | None => Err OtherError
+      end.
+  Proof.
+    intros k items. unfold ckk_generator, ckk, last_opt. rewrite rev_involutive. split.
+    - apply (SSorted_rev (fun a b : bins A => bins_diff a < bins_diff b)).
+      apply (run_chain k items).
+    - pose proof (run_hd true None k items) as HH. cbv zeta in HH. rewrite HH.
+      destruct (ckk_yields (ckk_run valueof nameof true true None k items)); reflexivity.
+  Qed.
+
+  Corollary ckk_generator_last : forall k items, items <> [] ->
+    exists b_last, last_opt (ckk_generator valueof nameof true k items None) = Some b_last /\
+                   ckk valueof nameof true k items = Ok (sort_bins b_last).
+  Proof.
+    intros k items Hne. destruct (ckk_generator_decreasing k items) as [_ E].
+    pose proof (run_total k items Hne) as HT.
+    pose proof (run_hd true None k items) as HH. cbv zeta in HH.
+    unfold ckk_generator, last_opt in *. rewrite rev_involutive in *.
+    destruct (ckk_yields (ckk_run valueof nameof true true None k items)) as [|y ys].
+    - cbn [hd_error] in HH. congruence.
+    - exists y. split; [reflexivity|exact E].
+  Qed.
+
+  (** ---- 7. the pruning bound is admissible (C13 / C02 ingredient) ---- *)
+
+  (** h' is reachable from h by repeated CKK expansions *)
+  Inductive expands : @heap A -> @heap A -> Prop :=
+  | expands_refl h : expands h h
+  | expands_step e1 e2 rest c h' :
+      In c (all_combinations nameof true (snd e1) (snd e2)) ->
+      expands (heap_push rest c) h' ->
+      expands (e1 :: e2 :: rest) h'.
+
+  Definition heap_full (k : nat) (its : list A) (h : @heap A) : Prop :=
+    heap_inv k its h /\ Forall sorted_ok h /\ Forall key_ok h.
+
+  Lemma initial_heap_full k items : (1 <= k)%nat ->
+    heap_full k items (initial_heap valueof true k items).
+  Proof.
+    intros Hk. split; [apply initial_heap_inv; exact Hk|split].
+    - apply initial_heap_Forall. exact pushed_sorted_ok.
+    - apply initial_heap_Forall. exact pushed_key_ok.
+  Qed.
+
+  Lemma child_full k its e1 e2 rest c :
+    heap_full k its (e1 :: e2 :: rest) ->
+    In c (all_combinations nameof true (snd e1) (snd e2)) ->
+    heap_full k its (heap_push rest c).
+  Proof.
+    intros (H1 & H2 & H3) Hc. split; [eapply ckk_child_inv; eassumption|split].
+    - eapply child_Forall; [exact pushed_sorted_ok|exact H2].
+    - eapply child_Forall; [exact pushed_key_ok|exact H3].
+  Qed.
+
+  Lemma expands_full k its h h' : expands h h' -> heap_full k its h -> heap_full k its h'.
+  Proof.
+    induction 1 as [h|e1 e2 rest c h' Hc He IH]; intros Hf; [exact Hf|].
+    apply IH. eapply child_full; eassumption.
+  Qed.
+
+  (** the total of all sums in the heap is the total value of the items *)
+  Lemma flat_total k its h : heap_inv k its h ->
+    zsum (heap_flat_sums h) = zsum (map valueof its).
+  Proof.
+    intros [HF HP]. rewrite <- (zsum_perm _ _ (Permutation_map valueof HP)). clear HP.
+    induction HF as [|e t He Ht IH]; [reflexivity|].
+    unfold heap_flat_sums in *. cbn [flat_map]. rewrite heap_contents_cons, map_app, !zsum_app, IH.
+    destruct He as [_ W]. rewrite (wf_total valueof _ W). reflexivity.
+  Qed.
+
+  Lemma sums_nonneg (b : bins A) : wf valueof b ->
+    Forall (fun x => 0 <= valueof x) (contents b) -> Forall (fun s => 0 <= s) (sums b).
+  Proof.
+    intros W. induction W as [|bn t Hb Ht IH]; intros HC; [constructor|].
+    rewrite contents_cons in HC. apply Forall_app in HC. destruct HC as [HC1 HC2].
+    cbn [sums map]. constructor; [|apply IH; exact HC2].
+    unfold wf_bin in Hb. rewrite Hb. apply zsum_nonneg. apply Forall_map. exact HC1.
+  Qed.
+
+  Lemma heap_sums_nonneg k its h : heap_inv k its h ->
+    Forall (fun x => 0 <= valueof x) its ->
+    Forall (fun e => Forall (fun s => 0 <= s) (sums (snd e))) h.
+  Proof.
+    intros [HF HP] Hpos.
+    assert (HC : Forall (fun x => 0 <= valueof x) (heap_contents h)).
+    { eapply Permutation_Forall; [symmetry; exact HP|exact Hpos]. }
+    clear HP Hpos. induction HF as [|e t He Ht IH]; [constructor|].
+    rewrite heap_contents_cons in HC. apply Forall_app in HC. destruct HC as [HC1 HC2].
+    constructor; [|apply IH; exact HC2]. apply sums_nonneg; [exact (proj2 He)|exact HC1].
+  Qed.
+
+  (** every element of l1 is below some element of l2 *)
+  Definition dom (l1 l2 : list Z) : Prop := forall x, In x l1 -> exists y, In y l2 /\ x <= y.
+
+  Lemma dom_refl l : dom l l.
+  Proof. intros x Hx. exists x. split; [exact Hx|lia]. Qed.
+
+  Lemma dom_trans l1 l2 l3 : dom l1 l2 -> dom l2 l3 -> dom l1 l3.
+  Proof.
+    intros H1 H2 x Hx. destruct (H1 x Hx) as (y & Hy & L1). destruct (H2 y Hy) as (z & Hz & L2).
+    exists z. split; [exact Hz|lia].
+  Qed.
+
+  Lemma dom_perm_l l1 l1' l2 : Permutation l1 l1' -> dom l1 l2 -> dom l1' l2.
+  Proof. intros P H x Hx. apply H. eapply Permutation_in; [symmetry; exact P|exact Hx]. Qed.
+
+  Lemma dom_perm_r l1 l2 l2' : Permutation l2 l2' -> dom l1 l2 -> dom l1 l2'.
+  Proof.
+    intros P H x Hx. destruct (H x Hx) as (y & Hy & L). exists y. split; [|exact L].
+    eapply Permutation_in; [exact P|exact Hy].
+  Qed.
+
+  Lemma dom_app l1 l1' l2 : dom l1 l2 -> dom l1' l2 -> dom (l1 ++ l1') l2.
+  Proof. intros H1 H2 x Hx. apply in_app_or in Hx. destruct Hx as [Hx|Hx]; [apply H1|apply H2]; exact Hx. Qed.
+
+  Lemma dom_app_r1 l1 l2 l3 : dom l1 l2 -> dom l1 (l2 ++ l3).
+  Proof.
+    intros H x Hx. destruct (H x Hx) as (y & Hy & L). exists y. split; [|exact L].
+    apply in_or_app. left. exact Hy.
+  Qed.
+
+  Lemma dom_app_r2 l1 l2 l3 : dom l1 l3 -> dom l1 (l2 ++ l3).
+  Proof.
+    intros H x Hx. destruct (H x Hx) as (y & Hy & L). exists y. split; [|exact L].
+    apply in_or_app. right. exact Hy.
+  Qed.
+
+  Lemma dom_zmax l1 l2 : l1 <> [] -> dom l1 l2 -> zmax l1 <= zmax l2.
+  Proof.
+    intros Hne H. destruct (H _ (zmax_in l1 Hne)) as (y & Hy & L).
+    pose proof (zmax_ge l2) as G. rewrite Forall_forall in G. pose proof (G y Hy). lia.
+  Qed.
+
+  Lemma zipsum_dom a : forall c, length a = length c ->
+    Forall (fun x => 0 <= x) a -> Forall (fun x => 0 <= x) c ->
+    dom a (zipsum a c) /\ dom c (zipsum a c).
+  Proof.
+    induction a as [|a0 a' IH]; intros [|c0 c'] HL Ha Hc; cbn [length] in HL; try discriminate.
+    - split; intros x Hx; destruct Hx.
+    - cbn [zipsum].
+      destruct (IH c') as [D1 D2]; [lia|exact (Forall_inv_tail Ha)|exact (Forall_inv_tail Hc)|].
+      pose proof (Forall_inv Ha) as Ha0. pose proof (Forall_inv Hc) as Hc0. cbv beta in Ha0, Hc0.
+      split; intros x [Hx|Hx].
+      + exists (a0 + c0). split; [left; reflexivity|lia].
+      + destruct (D1 x Hx) as (y & Hy & L). exists y. split; [right; exact Hy|exact L].
+      + exists (a0 + c0). split; [left; reflexivity|lia].
+      + destruct (D2 x Hx) as (y & Hy & L). exists y. split; [right; exact Hy|exact L].
+  Qed.
+
+  Lemma name_sorted_sums r : sums (name_sorted r) = sums r.
+  Proof. unfold sums, name_sorted. rewrite map_map. reflexivity. Qed.
+
+  Lemma combo_sums_dom (b1 b2 : bins A) p : length b1 = length b2 ->
+    Permutation p (range (length b1)) ->
+    Forall (fun s => 0 <= s) (sums b1) -> Forall (fun s => 0 <= s) (sums b2) ->
+    dom (sums b1) (sums (combo_of_perm nameof true b1 b2 p)) /\
+    dom (sums b2) (sums (combo_of_perm nameof true b1 b2 p)).
+  Proof.
+    intros HL Hp N1 N2. rewrite combo_of_perm_eq.
+    pose proof (picked_perm b1 p Hp) as PP.
+    assert (PS : Permutation (sums (map (getbin b1) p)) (sums b1)) by (apply Permutation_map; exact PP).
+    destruct (zipsum_dom (sums (map (getbin b1) p)) (sums b2)) as [D1 D2].
+    - rewrite (Permutation_length PS). unfold sums. rewrite !map_length. exact HL.
+    - eapply Permutation_Forall; [symmetry; exact PS|exact N1].
+    - exact N2.
+    - rewrite <- zip_combine_sums in D1, D2.
+      rewrite <- (name_sorted_sums (zip_combine (map (getbin b1) p) b2)) in D1, D2.
+      split.
+      + eapply dom_perm_r; [symmetry; apply sort_bins_sums_perm|].
+        eapply dom_perm_l; [exact PS|exact D1].
+      + eapply dom_perm_r; [symmetry; apply sort_bins_sums_perm|exact D2].
+  Qed.
+
+  Lemma all_combinations_dom (b1 b2 c : bins A) : length b1 = length b2 ->
+    Forall (fun s => 0 <= s) (sums b1) -> Forall (fun s => 0 <= s) (sums b2) ->
+    In c (all_combinations nameof true b1 b2) ->
+    dom (sums b1) (sums c) /\ dom (sums b2) (sums c).
+  Proof.
+    intros HL N1 N2 H. unfold all_combinations in H. apply dedup_combos_in in H.
+    apply in_map_iff in H. destruct H as (p & <- & Hp).
+    apply combo_sums_dom; try assumption. apply perms_sound_local. exact Hp.
+  Qed.
+
+  Lemma flat_push_perm rest (c : bins A) :
+    Permutation (heap_flat_sums (heap_push rest c)) (sums (sort_bins c) ++ heap_flat_sums rest).
+  Proof.
+    unfold heap_flat_sums, heap_push. cbv zeta.
+    rewrite (Permutation_flat_map _ (heap_insert_perm _ rest)). apply Permutation_refl.
+  Qed.
+
+  Lemma expand_dom k its e1 e2 rest c :
+    heap_inv k its (e1 :: e2 :: rest) -> Forall (fun x => 0 <= valueof x) its ->
+    In c (all_combinations nameof true (snd e1) (snd e2)) ->
+    dom (heap_flat_sums (e1 :: e2 :: rest)) (heap_flat_sums (heap_push rest c)).
+  Proof.
+    intros Hh Hpos Hc. pose proof (heap_sums_nonneg k its _ Hh Hpos) as HN.
+    destruct Hh as [HF _].
+    destruct (Forall_inv HF) as [L1 _]. destruct (Forall_inv (Forall_inv_tail HF)) as [L2 _].
+    destruct (all_combinations_dom (snd e1) (snd e2) c) as [D1 D2];
+      [congruence|exact (Forall_inv HN)|exact (Forall_inv (Forall_inv_tail HN))|exact Hc|].
+    eapply dom_perm_r; [symmetry; apply flat_push_perm|].
+    unfold heap_flat_sums. cbn [flat_map].
+    apply dom_app; [|apply dom_app].
+    - apply dom_app_r1. eapply dom_perm_r; [symmetry; apply sort_bins_sums_perm|exact D1].
+    - apply dom_app_r1. eapply dom_perm_r; [symmetry; apply sort_bins_sums_perm|exact D2].
+    - apply dom_app_r2, dom_refl.
+  Qed.
+
+  Lemma expands_dom k its h h' : expands h h' -> heap_inv k its h ->
+    Forall (fun x => 0 <= valueof x) its ->
+    dom (heap_flat_sums h) (heap_flat_sums h').
+  Proof.
+    induction 1 as [h|e1 e2 rest c h' Hc He IH]; intros Hh Hpos; [apply dom_refl|].
+    eapply dom_trans; [eapply expand_dom; eassumption|].
+    apply IH; [eapply ckk_child_inv; eassumption|exact Hpos].
+  Qed.
+
+  Lemma zsum_ge_len m l : Forall (fun x => m <= x) l -> Z.of_nat (length l) * m <= zsum l.
+  Proof.
+    induction 1 as [|x t Hx Ht IH]; [cbn; lia|].
+    cbn [length zsum fold_right]. fold (zsum t). lia.
+  Qed.
+
+  (** in any list, the minimum is at most the average of the others once a maximum is set aside *)
+  Lemma zmin_avg l : l <> [] -> (Z.of_nat (length l) - 1) * zmin l <= zsum l - zmax l.
+  Proof.
+    intros Hne. destruct (in_split _ _ (zmax_in l Hne)) as (l1 & l2 & E).
+    pose proof (zmin_le l) as HM. rewrite E in HM at 2.
+    apply Forall_app in HM. destruct HM as [HM1 HM2]. apply Forall_inv_tail in HM2.
+    pose proof (zsum_ge_len _ _ HM1) as G1. pose proof (zsum_ge_len _ _ HM2) as G2.
+    assert (HS : zsum l = zsum l1 + (zmax l + zsum l2)).
+    { rewrite E at 1. rewrite zsum_app. reflexivity. }
+    assert (HL : Z.of_nat (length l) = Z.of_nat (length l1) + 1 + Z.of_nat (length l2)).
+    { rewrite E at 1. rewrite app_length. cbn [length]. lia. }
+    nia.
+  Qed.
+
+  Lemma expands_nonempty h (e : @hentry A) : expands h [e] -> h <> [].
+  Proof. intros H. inversion H; discriminate. Qed.
+
+  (** whole reachable set: no leaf below h can beat the bound computed at h *)
+  Theorem ckk_bound_admissible : forall k its h e lb,
+    heap_full k its h -> Forall (fun x => 0 <= valueof x) its ->
+    expands h [e] -> ckk_bound k h = Some lb -> fst e <= lb.
+  Proof.
+    intros k its h e lb Hf Hpos Hex Hb.
+    pose proof (expands_full k its _ _ Hex Hf) as (Hinv' & Hs' & Hk').
+    destruct Hf as (Hinv & _ & _).
+    pose proof (expands_dom k its _ _ Hex Hinv Hpos) as D.
+    pose proof (flat_total k its _ Hinv) as T1. pose proof (flat_total k its _ Hinv') as T2.
+    pose proof (Forall_inv Hk') as Hkey. unfold key_ok in Hkey.
+    pose proof (Forall_inv Hs') as Hsorted. unfold sorted_ok in Hsorted.
+    rewrite (bins_diff_sorted _ Hsorted) in Hkey.
+    destruct Hinv' as [HF' _]. destruct (Forall_inv HF') as [Le _].
+    unfold heap_flat_sums in D, T2. cbn [flat_map] in D, T2. rewrite app_nil_r in D, T2.
+    fold (heap_flat_sums h) in D.
+    destruct k as [|[|n]]; try discriminate. unfold ckk_bound in Hb. cbv zeta in Hb.
+    injection Hb as <-.
+    assert (Hne : heap_flat_sums h <> []).
+    { pose proof (expands_nonempty _ _ Hex) as Hh. destruct h as [|e0 t]; [congruence|].
+      destruct Hinv as [HF _]. destruct (Forall_inv HF) as [L0 _].
+      unfold heap_flat_sums. cbn [flat_map]. unfold sums.
+      destruct (snd e0); cbn [length] in L0; [lia|discriminate]. }
+    pose proof (dom_zmax _ _ Hne D) as Hmx.
+    assert (Hse : sums (snd e) <> []).
+    { unfold sums. destruct (snd e); cbn [length] in Le; [lia|discriminate]. }
+    pose proof (zmin_avg _ Hse) as Havg.
+    assert (HLs : Z.of_nat (length (sums (snd e))) = Z.of_nat (S (S n))).
+    { unfold sums. rewrite map_length, Le. reflexivity. }
+    rewrite HLs in Havg.
+    set (d := Z.of_nat (S (S n)) - 1) in *. assert (Hd : 0 < d) by lia.
+    set (mx := zmax (heap_flat_sums h)) in *.
+    set (tot := zsum (heap_flat_sums h)) in *.
+    assert (Hq : zmin (sums (snd e)) <= (tot - mx) / d).
+    { apply Z.div_le_lower_bound; [exact Hd|]. lia. }
+    lia.
+  Qed.
+
+  (** the same, for heaps met during a run: anything expanded from the initial heap *)
+  Corollary ckk_bound_admissible_run : forall k items h e lb,
+    (1 <= k)%nat -> Forall (fun x => 0 <= valueof x) items ->
+    expands (initial_heap valueof true k items) h ->
+    expands h [e] -> ckk_bound k h = Some lb -> fst e <= lb.
+  Proof.
+    intros k items h e lb Hk Hpos H1 H2 Hb.
+    eapply ckk_bound_admissible; [|exact Hpos|exact H2|exact Hb].
+    eapply expands_full; [exact H1|]. apply initial_heap_full. exact Hk.
   Qed.
 
 End KKProofs.
